@@ -158,6 +158,60 @@ func panicSites(it Item) (string, error) {
 			})
 		}
 	}
+	if scanAll["rootspan"] {
+		// uses of a possibly-nil *Span taken from <x>.RootSpan: dereferences `<x>.RootSpan.<sel>` and assignments
+		// `<v> = <x>.RootSpan`, each with the innermost enclosing if-condition that mentions RootSpan ("unguarded" if none)
+		for _, f := range p.files {
+			for _, d := range f.Decls {
+				fd, ok := d.(*ast.FuncDecl)
+				if !ok || fd.Body == nil {
+					continue
+				}
+				name := funcName(fd)
+				var walk func(n ast.Node, guard string)
+				walk = func(n ast.Node, guard string) {
+					if n == nil {
+						return
+					}
+					switch x := n.(type) {
+					case *ast.IfStmt:
+						if x.Init != nil {
+							walk(x.Init, guard)
+						}
+						walk(x.Cond, guard)
+						g := guard
+						if ct := normText(p, x.Cond); strings.Contains(ct, "RootSpan") {
+							g = ct
+						}
+						walk(x.Body, g)
+						if x.Else != nil {
+							walk(x.Else, guard)
+						}
+						return
+					case *ast.SelectorExpr:
+						if strings.HasSuffix(normText(p, x.X), ".RootSpan") {
+							add(name, "rootspan", normText(p, x)+" | if "+guard)
+						}
+					case *ast.AssignStmt:
+						for _, r := range x.Rhs {
+							if strings.HasSuffix(normText(p, r), ".RootSpan") {
+								add(name, "rootspan", normText(p, x)+" | if "+guard)
+							}
+						}
+					}
+					// generic descent
+					ast.Inspect(n, func(c ast.Node) bool {
+						if c == n || c == nil {
+							return true
+						}
+						walk(c, guard)
+						return false
+					})
+				}
+				walk(fd.Body, "unguarded")
+			}
+		}
+	}
 	for f := range funcs {
 		if f != "*" && !found[f] {
 			return "", fmt.Errorf("panic_sites: function %s not found in %s", f, it.Pkg)
